@@ -120,7 +120,12 @@ def mutate_attr(
 
     # If not inplace, copy before writing new value for attribute
     if not (inplace or metadata and metadata.do_not_copy):
-        obj = copy.deepcopy(obj)
+        original, obj = obj, copy.deepcopy(obj)
+        if value is getattr(original, "__dict__", {}).get(attr, MISSING):
+            # The "new" value is the original's own object (e.g. `update_<attr>()`
+            # with nothing to update, or an identity transform): the copy keeps
+            # its own copy of it rather than sharing it with the original.
+            value = getattr(obj, "__dict__", {}).get(attr, value)
 
     # Perform actual mutation
     try:
